@@ -63,6 +63,12 @@ CHECKS['C05'] = dict(
     note='hash-seed independence sampled, not proved; single-character terminals (terminal priorities add a constant per input)',
     ref='6/C05')
 
+CHECKS['C18'] = dict(
+    technique='TLA+ Indenter machine model-checked against the stated nesting laws over all short streams (TLC) + trace validation of a real Indenter subclass on the exhaustive stream family and on multi-stream histories, and of PythonIndenter on generated programs cross-checked with CPython tokenize',
+    text='TLC proves on all streams of <=6 tokens (newlines with indents 0..3, brackets, other) the laws of the statement (level stack strictly increasing, INDENT only after a newline with larger indentation, one DEDENT per closed level also at the end, newlines inside brackets swallowed, DedentError exactly on a dedent to a non-open column, balance at end); the real Indenter is run on the same family with tab/space spellings and on histories of 2-3 streams on one object (DedentErrors, abandoned generators) and every emitted token is compared with the machine restarted from Reset; generated programs go through Lark(python.lark, PythonIndenter).lex and CPython\'s tokenizer and TLC compares the nesting depth of every content token.',
+    note='CPython cross-check on space-only indentation with balanced brackets; stray closing bracket (assert) modelled but not judged',
+    ref='6/C18')
+
 NOT_APPLICABLE = []
 
 
